@@ -1,0 +1,13 @@
+//go:build !verif
+
+// Package verifhook is a set of no-op tracing hooks. The real implementation is compiled in with the `verif` build tag.
+package verifhook
+
+// On reports whether tracing hooks are compiled in.
+const On = false
+
+// Emit does nothing in the default build.
+func Emit(event string, kv ...any) {}
+
+// Permute returns its argument unchanged in the default build.
+func Permute[T any](site string, items []T, key func(T) string) []T { return items }
